@@ -13,7 +13,8 @@
 (*                 every zero-suppressible UPC-A number over EDigits (enumerated by the four suppression shapes)*)
 (*       addon     EAN-2: all 100 values x 4 parities, EAN-5: a family x 32 parities: accepted iff parity =     *)
 (*                 the one encoding the check value                                                           *)
-(*       c128/c93  Read(Runs(x)) = x and every single-character substitution is refused, on a family           *)
+(*       c128/c93/c39  Read(Runs(x)) = x and every single-character substitution is refused, on a family (Code 39 *)
+(*                 with the optional modulo-43 check character)                                               *)
 (*  Gen_Check.cfg (Mode = "gen"): seeds.ndjson holds payloads chosen by the orchestrator; one state per seed;  *)
 (*     Emit prints the unsubstituted symbol and all its single-character substitutions (as run sequences built  *)
 (*     from the spec's tables) for the harness to render and the real readers to read.                         *)
@@ -35,11 +36,12 @@ FamJobs == {<<"fam", s, x>> : s \in 1..4, x \in 0..9}             \* 1 EAN-8, 2 
 Jobs == {<<"tables", 0, 0>>, <<"mod10", 0, 0>>, <<"mod47", 0, 0>>, <<"addon2", 0, 0>>}
         \cup {<<"mod103", w, 0>> : w \in 1..102} \cup UPCEJobs \cup ShapeJobs \cup FamJobs
         \cup {<<"addon5", x, 0>> : x \in 0..9} \cup {<<"c128", x, 0>> : x \in 1..6} \cup {<<"c93", x, 0>> : x \in 1..6}
+        \cup {<<"c39", x, 0>> : x \in 1..3}
 NGroups == 32
 JobSeq == LET RECURSIVE f(_) f(S) == IF S = {} THEN <<>> ELSE LET x == CHOOSE x \in S : TRUE IN <<x>> \o f(S \ {x}) IN f(Jobs)
 
 NoSubstVerifies(sym, n) ==      \* n complete and valid
-  /\ LET f == Forward(sym, SymRuns(sym, n)) IN f.ok /\ (sym \notin {"C128", "C93"} => f.text = Bytes(n))
+  /\ LET f == Forward(sym, SymRuns(sym, n)) IN f.ok /\ (sym \notin {"C128", "C93", "C39K"} => f.text = Bytes(n))
   /\ \A s \in Substitutions(sym, n) : ~Forward(sym, SymRuns(sym, Subst(n, s))).ok
 \* families of payloads
 Fam8(x) == {<<x, a, b, (a + x) % 10, 7, b, (a * b) % 10>> : a \in {0, 3, 8}, b \in {1, 9}}
@@ -99,11 +101,14 @@ JobOK(j) ==
                             IN ReadAddOn(r, 61, 5) = (IF par = P5[Check5(d) + 1] THEN Good(Bytes(d)) ELSE Fail)
     [] j[1] = "c128" -> \A p \in Fam128(j[2]) : NoSubstVerifies("C128", Complete("C128", p))
     [] j[1] = "c93" -> \A p \in Fam93(j[2]) : NoSubstVerifies("C93", Complete("C93", p))
+    [] j[1] = "c39" -> /\ \A a, b \in 0..42 : a # b => a % 43 # b % 43
+                       /\ \A p \in {<<j[2], 10, 42>>, <<38, j[2]>>, [i \in 1..12 |-> (i * 5 + j[2]) % 43]} :
+                             NoSubstVerifies("C39K", Complete("C39K", p))
     [] OTHER -> FALSE
 
 (* ------------------------------------------------------------------ generation *)
 Case(sym, n, pos, d, ad, ap) ==
-  [op |-> "read", sym |-> sym, n |-> n, pos |-> pos, d |-> d, ad |-> ad, ap |-> ap, gap |-> IF ad = <<>> THEN 0 ELSE 9,
+  [op |-> "read", sym |-> sym, rd |-> "own", n |-> n, pos |-> pos, d |-> d, ad |-> ad, ap |-> ap, gap |-> IF ad = <<>> THEN 0 ELSE 9,
    runs |-> IF ad = <<>> THEN SymRuns(sym, n) ELSE WithAddOn(SymRuns(sym, n), 9, AddOnRuns(ad, ap))]
 \* a seed keeps the substitutions <<position, value>> on its own residue class modulo Stride (Stride = 1: all of them)
 Pick(S, k) == {x \in S : (x[1] * 37 + x[2] + k) % Stride = 0}
